@@ -35,3 +35,67 @@ pub fn trim_start_zeros<'a, P>(s: &'a str, _pattern: P) -> &'a str {
     // Safety: ASCII prefix removed
     unsafe { core::str::from_utf8_unchecked(&bytes[i..]) }
 }
+
+/// `str::lines()` over symbolic bytes runs CBMC out of memory (SplitInclusive + the word-at-a-time memchr of
+/// CharSearcher).  These two stubs replace the iterator steps by byte loops with the documented meaning of `Lines`:
+/// segments end at '\n' (inclusive), a trailing empty segment is not yielded, then one "\n" and - only if a "\n" was
+/// stripped - one "\r" are removed.  The remaining input is read through the (unstable) `Lines::remainder`.
+pub fn lines_next<'a>(it: &mut core::str::Lines<'a>) -> Option<&'a str>
+where
+    'a: 'a,
+{
+    let rem: &'a str = match it.remainder() {
+        Some(r) => r,
+        None => return None,
+    };
+    let bytes = rem.as_bytes();
+    if bytes.is_empty() {
+        return None;
+    }
+    let mut i = 0;
+    while i < bytes.len() && bytes[i] != b'\n' {
+        i += 1;
+    }
+    // Safety: '\n' is ASCII, so i and i + 1 are char boundaries
+    let (line, rest) = if i < bytes.len() {
+        (&bytes[..i], &bytes[i + 1..])
+    } else {
+        (bytes, &bytes[bytes.len()..])
+    };
+    let had_newline = i < bytes.len();
+    *it = unsafe { core::str::from_utf8_unchecked(rest) }.lines();
+    let line = if had_newline && !line.is_empty() && line[line.len() - 1] == b'\r' {
+        &line[..line.len() - 1]
+    } else {
+        line
+    };
+    Some(unsafe { core::str::from_utf8_unchecked(line) })
+}
+
+pub fn lines_next_back<'a>(it: &mut core::str::Lines<'a>) -> Option<&'a str>
+where
+    'a: 'a,
+{
+    let rem: &'a str = match it.remainder() {
+        Some(r) => r,
+        None => return None,
+    };
+    let bytes = rem.as_bytes();
+    if bytes.is_empty() {
+        return None;
+    }
+    let had_newline = bytes[bytes.len() - 1] == b'\n';
+    let end = if had_newline { bytes.len() - 1 } else { bytes.len() };
+    let mut start = end;
+    while start > 0 && bytes[start - 1] != b'\n' {
+        start -= 1;
+    }
+    *it = unsafe { core::str::from_utf8_unchecked(&bytes[..start]) }.lines();
+    let line = &bytes[start..end];
+    let line = if had_newline && !line.is_empty() && line[line.len() - 1] == b'\r' {
+        &line[..line.len() - 1]
+    } else {
+        line
+    };
+    Some(unsafe { core::str::from_utf8_unchecked(line) })
+}
